@@ -106,5 +106,11 @@ CLAIMED["C08"] = dict(
     note="Trusted: sa/minieval.py interpreting the helpers' own source; pickletools stack effects of the dozen template opcodes; BODY as a stand-in for any base body that nets [] -> [obj].",
 )
 
+CLAIMED["C17"] = dict(
+    technique="reachability/effect analysis from identify_pytorch_file_format (literal read modes, no write/extract/rename, no module-level state or non-determinism source), literal comparison of the decision table and marker list with the documented ones, def-use of create_polyglot's input paths, acquire/release pairing of temporary artefacts over a CFG with exceptional edges",
+    level="Decides the read-only / deterministic structure of identification, that torch-zip classification is exactly 'all matching rows of the documented table in order' with the PyTorch v1.3 floor row, that polyglot construction only ever copies from its inputs, and that every temporary artefact is removed on every exit. Agreement of the classification with torch's own acceptance on real files, substring-vs-exact member matching, and that a successful polyglot is identified as both constituent formats depend on third-party parsers and data - not decided.",
+    note="Trusted: the documented table/marker list frozen from the property text and the module docstring; audited readers listed in AUDITED_READERS.",
+)
+
 _NOT_YET = "checker not built yet in this session (planned per DESIGN.md section 3); nothing is claimed until it exists"
 NOT_APPLICABLE = {p: _NOT_YET for p in [f"C{i:02d}" for i in range(1, 20)]}
